@@ -69,7 +69,7 @@ def classify(ctx, cases, orders):
     rc, err = ctx.drv("classify", p, out)
     if rc != 0:
         return None
-    res = [l for l in ctx.read_lines(out) if l != "-"]
+    res = [l.split()[0] for l in ctx.read_lines(out) if l != "-"]
     return res if len(res) == len(cases) else None
 
 
@@ -116,6 +116,43 @@ def property_oracle(ctx, ops_path, tag):
             fp = "order:" + name
             ctx.count("oracle.diverged." + name)
             ctx.violation(fp, WHAT.get(fp, "ordered run and cold start differ on the real controller: " + name), rep, True)
+
+
+def theorem_coverage(ctx, ops_path):
+    """Evaluate the hypotheses (AllGood, side conditions) and the conclusion (view = derive) of the convergence theorems on
+    every generated case with the compiled Lean definitions: how many cases lie in the proved class, and that none of them
+    contradicts the theorem (the ordered run of the real controller equals the model's by the differential)."""
+    out = os.path.join(ctx.work, "coverage.out")
+    rc, err = ctx.drv("classify", ops_path, out)
+    if rc != 0:
+        ctx.tie_broken("classify", "the Lean driver failed on the coverage pass: " + err[-1000:])
+        return
+    ops = ctx.read_lines(ops_path)
+    res = ctx.read_lines(out)
+    cases = split_cases(ops)
+    verdicts = [l for l in res if l != "-"]
+    if len(verdicts) != len(cases):
+        ctx.tie_broken("classify", "coverage pass printed %d verdicts for %d cases" % (len(verdicts), len(cases)))
+        return
+    for c, v in zip(cases, verdicts):
+        f = dict(t.split("=", 1) for t in v.split()[1:] if "=" in t)
+        good, side, der = f.get("good"), f.get("side"), f.get("derive")
+        ctx.count("theorem.cases")
+        if good == "1":
+            ctx.count("theorem.in-class(all steps good)")
+        elif good == "-":
+            ctx.count("theorem.outside-class(stores ahead)")
+        else:
+            ctx.count("theorem.outside-class(some step not good)")
+        if good == "1" and side == "1":
+            ctx.count("theorem.in-class-with-side-conditions")
+            if der != "1":
+                ctx.violation("order:theorem-instance-contradicted",
+                              "a generated history satisfies every hypothesis of convergence_to_derive but the model's final "
+                              "view differs from derive (the Lean theorem and its compiled evaluation disagree)",
+                              {"stream": "order", "ops": c, "classify": v}, True)
+        if der == "1":
+            ctx.count("theorem.view-equals-derive")
 
 
 def oracle(ctx, stream, case_lines, rep):
@@ -171,6 +208,7 @@ def run(ctx):
     g = os.path.join(ctx.work, "order.gen.ops")
     if os.path.exists(g):
         property_oracle(ctx, g, "order.gen")
+        theorem_coverage(ctx, g)
 
 
 def replay(ctx, path):
